@@ -220,7 +220,8 @@ impl<'c, 'ch: 'c> Records<'c, 'ch> {
     }
 
     fn read_name(&mut self) -> io::Result<Option<Cow<'c, [u8]>>> {
-        const MISSING: &[u8] = b"*\x00";
+        const MISSING: &[u8] = b"*";
+        const MISSING_WITH_TERMINATOR: &[u8] = b"*\x00";
 
         self.compression_header
             .data_series_encodings()
@@ -228,7 +229,7 @@ impl<'c, 'ch: 'c> Records<'c, 'ch> {
             .ok_or_else(|| missing_data_series_encoding_error(DataSeries::Names))?
             .decode(&mut self.core_data_reader, &mut self.external_data_readers)
             .map(|buf| match &buf[..] {
-                MISSING => None,
+                MISSING | MISSING_WITH_TERMINATOR => None,
                 _ => Some(buf),
             })
     }
